@@ -16,6 +16,7 @@ BUDGET = {
     "quick": {"workers": 16, "cases": 450, "secs": 60, "min_cases": 3600},
     "thorough": {"workers": 16, "rounds": 4, "cases": 1300, "secs": 420, "min_cases": 41600},
 }
+SIBLINGS = True  # consecutive cases with identical structure and different gate types
 ANCHORS = ["sat:cnf", "sat:solve", "sat:construct_solver", "sat:add_assumptions"]
 
 LIBS_QUICK = ["c17", "s27"]
